@@ -35,6 +35,14 @@ type Case struct {
 	// is created, filtered and bound afterwards.  nil = no reload.
 	Reload     []plugin.Pool
 	ReloadKind string
+	// FaultPrefix: an operation of the PREFIX history runs with ONE injected apiserver fault (the state the case starts
+	// from is then a state reached through a fault); the final filter -> bind runs fault-free as always.
+	//   "bind-create":    the target's first bind attempt fails at the store Create of its 2nd or a later address
+	//   "filter-update":  a first filter of the target fails at the Get/Update of the re-key of a reserved address
+	//   "release-delete": the release of another pod's address fails at the store Delete once, then is retried
+	//   "reload-delete":  a reload drops an allocated address from the configuration and its store Delete fails
+	FaultPrefix string
+	FaultIndex  int
 }
 
 func tilde(s string) string {
@@ -147,11 +155,52 @@ func (c *Case) Script(sel BindSel, out *Outcome) plugin.Script {
 		// warm-up: a Filter over ALL nodes caches their subnets under the old configuration
 		prog = append(prog, fixed("pod create ns1 warm bare ~ ~ 0 - 1"), fixed("sync pods"),
 			fixed(fmt.Sprintf("filter ns1 warm %s ? ? 0", c.allNodes())),
-			fixed("reload "+plugin.PoolsLine(c.Reload)+" 0"))
+			fixed(fmt.Sprintf("reload %s %d", plugin.PoolsLine(c.Reload), map[bool]int{true: c.FaultIndex, false: 0}[c.FaultPrefix == "reload-delete"])))
 	}
+	if c.FaultPrefix == "release-delete" {
+		prog = append(prog, fixed(fmt.Sprintf("pod create ns1 rel0 bare ~ ~ 0 %d-%d 1", c.FaultIndex, c.FaultIndex)))
+		prog = append(prog, c.scheduleFirst("ns1", "rel0")...)
+		prog = append(prog, fixed("pod delete ns1 rel0"), func(w *plugin.World) string {
+			if len(w.Events) == 0 {
+				return "sync pods"
+			}
+			return fmt.Sprintf("deliver %d 1 0", len(w.Events)-1) // the store Delete fails: the event is queued again
+		}, deliverLast)
+	}
+	abort := false
 	prog = append(prog, fixed(t.createLine(t.Policy, t.Ranges)), fixed("sync pods"))
+	switch c.FaultPrefix {
+	case "bind-create":
+		prog = append(prog, fixed(fmt.Sprintf("filter %s %s %s ? ? 0", t.NS, t.Name, c.allNodes())),
+			func(w *plugin.World) string {
+				a := approvedOf(w)
+				if len(a) == 0 {
+					return "sync pods"
+				}
+				return fmt.Sprintf("bind %s %s %s %s ? ? %d 0", t.NS, t.Name, uidOf(w, t.NS, t.Name), a[0], c.FaultIndex)
+			},
+			func(w *plugin.World) string {
+				// the fault index may lie beyond the calls the bind made: then the pod is bound and the case ends here
+				if w.LastOp.Kind == "bind" && strings.HasPrefix(w.LastOp.Result, "ok") {
+					abort = true
+				}
+				return "sync pods"
+			})
+	case "filter-update":
+		prog = append(prog, fixed(fmt.Sprintf("filter %s %s %s ? ? %d", t.NS, t.Name, c.allNodes(), c.FaultIndex)))
+	}
 	prog = append(prog, fixed(fmt.Sprintf("filter %s %s %s ? ? 0", t.NS, t.Name, dashIfEmpty(strings.Join(c.Cand, ",")))))
+	finalFilter := prog[len(prog)-1]
+	prog[len(prog)-1] = func(w *plugin.World) string {
+		if abort {
+			return ""
+		}
+		return finalFilter(w)
+	}
 	prog = append(prog, func(w *plugin.World) string {
+		if abort {
+			return ""
+		}
 		out.Filtered = true
 		out.Approved = approvedOf(w)
 		sort.Strings(out.Approved)
@@ -383,6 +432,64 @@ func GenCase(rng *rand.Rand) *Case {
 	if rng.Intn(100) < 30 {
 		c.Reload, c.ReloadKind = genReload(rng, c.Conf.Pools)
 	}
+	// a fault in the prefix history (the final filter -> bind stays fault-free)
+	if x := rng.Intn(100); x < 22 {
+		switch {
+		case len(t.Ranges) >= 2 && !(t.Kind == "dp" && t.Policy != 0) && x < 12:
+			c.FaultPrefix, c.FaultIndex = "bind-create", 2+rng.Intn(len(t.Ranges)-1)
+		case c.Siblings > 0 && x < 16:
+			c.FaultPrefix, c.FaultIndex = "filter-update", 1+rng.Intn(2)
+		case x < 19:
+			// an address nobody holds and the target does not request
+			taken := map[uint32]bool{}
+			for _, ip := range c.Others {
+				taken[ip] = true
+			}
+			for _, ip := range c.Held {
+				taken[ip] = true
+			}
+			for _, ip := range all {
+				if !taken[ip] && !inReq(ip) {
+					c.FaultPrefix, c.FaultIndex = "release-delete", int(ip)
+					break
+				}
+			}
+		case len(c.Others) > 0:
+			// the configuration loses an address another pod holds; the Delete of its object fails
+			victim := c.Others[rng.Intn(len(c.Others))]
+			base := c.Conf.Pools
+			if c.Reload != nil {
+				base = c.Reload
+			}
+			np := make([]plugin.Pool, len(base))
+			for i, p := range base {
+				q := p
+				q.Ranges = nil
+				for _, r := range p.Ranges {
+					switch {
+					case victim < r[0] || victim > r[1]:
+						q.Ranges = append(q.Ranges, r)
+					default:
+						if r[0] < victim {
+							q.Ranges = append(q.Ranges, [2]uint32{r[0], victim - 1})
+						}
+						if victim < r[1] {
+							q.Ranges = append(q.Ranges, [2]uint32{victim + 1, r[1]})
+						}
+					}
+				}
+				np[i] = q
+			}
+			okConf := true
+			for _, p := range np {
+				okConf = okConf && len(p.Ranges) > 0
+			}
+			if okConf {
+				c.Reload, c.ReloadKind = np, c.ReloadKind+"+drops-allocated-address"
+				c.FaultPrefix, c.FaultIndex = "reload-delete", 3
+			}
+		}
+	}
 	// candidate nodes: mostly all nodes, sometimes a subset, rarely none
 	for _, n := range c.Conf.Nodes {
 		if rng.Intn(100) < 88 {
@@ -485,7 +592,7 @@ func genReload(rng *rand.Rand, pools []plugin.Pool) ([]plugin.Pool, string) {
 
 // Describe is a short content line of the case for the report.
 func (c *Case) Describe() string {
-	return fmt.Sprintf("%s|%s/%s kind=%s pool=%s policy=%d ranges=%s|others=%v held=%v pending=%v siblings=%d|cand=%v|reload=%s:%s",
+	return fmt.Sprintf("%s|%s/%s kind=%s pool=%s policy=%d ranges=%s|others=%v held=%v pending=%v siblings=%d|cand=%v|reload=%s:%s|fault=%s:%d",
 		c.Conf.InitLine(), c.Target.NS, c.Target.Name, c.Target.Kind, c.Target.Pool, c.Target.Policy,
-		plugin.RangesLine(c.Target.Ranges), c.Others, c.Held, c.Pending, c.Siblings, c.Cand, c.ReloadKind, plugin.PoolsLine(c.Reload))
+		plugin.RangesLine(c.Target.Ranges), c.Others, c.Held, c.Pending, c.Siblings, c.Cand, c.ReloadKind, plugin.PoolsLine(c.Reload), c.FaultPrefix, c.FaultIndex)
 }
